@@ -6,6 +6,7 @@ iteration order ("raises" = the `error` branch of the model).
 import RichchkModel.Lemmas.RichLemmas
 import RichchkModel.Lemmas.TrigLemmas
 import RichchkModel.Lemmas.UpusLemmas
+import RichchkModel.Lemmas.RebuildLemmas
 namespace Richchk.Props.C11
 open Richchk
 
@@ -296,5 +297,50 @@ theorem c11_emitted_locations_carry_their_index {cfg : RichCfg} {secs : List RSe
           · cases hq; rfl
           · cases hq
   · simp at h
+
+/-- the slots of the entries a rebuild appends are among the slots the allocator handed out, in order -/
+theorem placed_idx_sublist (placement : List RLoc) (ress : List Res) :
+    List.Sublist
+      ((((placement.zip ress).filterMap fun (l, r) => match r with
+          | .placed s => some (({ l with idx := some s } : RLoc), l.uid)
+          | .skipped => none).map (·.1)).filterMap (·.idx))
+      (placedSlots ress) := by
+  induction placement generalizing ress with
+  | nil => simp
+  | cons l ls ih =>
+    cases ress with
+    | nil => simp
+    | cons r rs =>
+      cases r with
+      | placed s =>
+        simp only [List.zip_cons_cons, List.filterMap_cons, List.map_cons, placedSlots]
+        exact List.Sublist.cons₂ _ (ih rs)
+      | skipped =>
+        simp only [List.zip_cons_cons, List.filterMap_cons, placedSlots]
+        exact ih rs
+
+/-- **no two entries of the emitted location table sit on one slot**, and no appended entry sits on a slot
+the stored table already uses: composition of the rebuild with the allocator's soundness (C09), for every
+rich map and every iteration order -/
+theorem c11_emitted_location_slots_distinct {cfg : RichCfg} {secs : List RSection} {order : Option (List Nat)}
+    {locs : List RLoc} {ids : List (Nat × Nat)} (h : rebuildMrgn cfg secs order = .ok (locs, ids))
+    (table : List RLoc) (ht : secs.filter (isSectionNamed nMRGN) = [.mrgn table])
+    (hnd : (table.filterMap (·.idx)).Nodup) :
+    (locs.filterMap (·.idx)).Nodup := by
+  unfold rebuildMrgn at h
+  simp only [ht] at h
+  split at h
+  · simp at h
+  · split at h
+    · simp at h
+    · rename_i ress st hal
+      simp only [Except.ok.injEq, Prod.mk.injEq] at h
+      obtain ⟨rfl, _⟩ := h
+      obtain ⟨hnd2, hfresh⟩ := Props.C09.c09_sound _ _ _ hal
+      rw [List.filterMap_append]
+      refine List.nodup_append.mpr ⟨hnd, (placed_idx_sublist _ ress).nodup hnd2, ?_⟩
+      intro a ha b hb hab
+      subst hab
+      exact (hfresh a ((placed_idx_sublist _ ress).subset hb)).1 ha
 
 end Richchk.Props.C11
